@@ -84,7 +84,17 @@ def unguarded_path(e, g, site, alternatives, start=None):
     for p, k in alts:
         paths |= set(key_paths(k))
 
-    def step(n, label, st):
+    nul = Nullness(g)
+
+    def step(n, label, st0):
+        st, ns = st0
+        ns2 = nul.step(n, label, ns)
+        if ns2 == 'infeasible':
+            return None
+        r = step1(n, label, st)
+        return (r, ns2)
+
+    def step1(n, label, st):
         if st:
             # an assignment to a mentioned path invalidates the guard
             if n.kind == 'stmt':
@@ -129,7 +139,8 @@ def unguarded_path(e, g, site, alternatives, start=None):
                     return True
         return False
     return dataflow.typestate_witness(
-        g, False, step, lambda n, st: n is site and not st, start=start)
+        g, (False, frozenset()), step,
+        lambda n, st: n is site and not st[0], start=start)
 
 
 def per_iteration_counts(g, lp, count, cap=3):
@@ -439,9 +450,15 @@ class Nullness:
                 return self._set(st, var, r)
         if n.kind == 'stmt' and isinstance(n.ast, _ast.Assign):
             from ..facts import path_of
+            v = n.ast.value
+            val = None
+            if isinstance(v, _ast.Constant):
+                val = 'none' if v.value is None else 'obj'
+            elif isinstance(v, (_ast.Tuple, _ast.List, _ast.Dict, _ast.Set)):
+                val = 'obj'
             for t in n.ast.targets:
                 if isinstance(t, _ast.Name):
-                    st = self._set(st, path_of(t, n.frame), None)
+                    st = self._set(st, path_of(t, n.frame), val)
         if n.kind == 'test' and label in ('T', 'F'):
             for pol, k in atoms_of_test(n.ast, label == 'T', n.frame):
                 for var, val in list(st):
